@@ -146,4 +146,52 @@ theorem forwarded_under_own_name (s : Sess) (id jobId en2 nt no vb nm : String) 
       | none => rw [hc] at h; simp at h; exact ⟨h.1.symm, h.2.1.symm, h.2.2⟩
       | some k => rw [hc] at h; simp at h; exact ⟨h.1.symm, h.2.1.symm, h.2.2⟩
 
+/-! ### whole histories of submits -/
+
+/-- one submit as the miner sends it: request id, job id, extranonce2, ntime, nonce, version bits,
+worker name, and the proof-of-work input -/
+structure SubmitMsg where
+  id : String
+  jobId : String
+  en2 : String
+  nt : String
+  no : String
+  vb : String
+  nm : String
+  share : List Nat
+
+/-- a whole history of submits, each run to quiescence, outputs in order -/
+def submitMany (pow : Pow) : Sess → List SubmitMsg → Sess × List Out
+  | s, [] => (s, [])
+  | s, m :: ms =>
+    let r := submit pow s m.id m.jobId m.en2 m.nt m.no m.vb m.nm m.share
+    let rr := submitMany pow r.1 ms
+    (rr.1, r.2 ++ rr.2)
+
+theorem one_reply_at_most (s : Sess) (id jobId en2 nt no vb nm : String) (share : List Nat) :
+    ((submit pow s id jobId en2 nt no vb nm share).2.filter isToMiner).length ≤ 1 := by
+  cases ha : activeDest s with
+  | none =>
+    have : submitSync pow s jobId share nm = none := by unfold submitSync; rw [ha]
+    unfold submit; rw [this]; simp
+  | some a =>
+    obtain ⟨r, _, h⟩ := (one_forward_one_reply pow s id jobId en2 nt no vb nm share).2 (by rw [ha]; simp)
+    rw [h]; simp
+
+/-- **No share is ever duplicated towards a pool, no reply is ever duplicated towards the miner**,
+over any history of submits of any length: at most one forwarded line and at most one reply per
+submit the miner sent. -/
+theorem history_forwards_and_replies_bounded (s : Sess) (ms : List SubmitMsg) :
+    ((submitMany pow s ms).2.filter isToPool).length ≤ ms.length ∧
+    ((submitMany pow s ms).2.filter isToMiner).length ≤ ms.length := by
+  induction ms generalizing s with
+  | nil => simp [submitMany]
+  | cons m ms ih =>
+    unfold submitMany
+    simp only [List.filter_append, List.length_append, List.length_cons]
+    have a := (one_forward_one_reply pow s m.id m.jobId m.en2 m.nt m.no m.vb m.nm m.share).1
+    have b := one_reply_at_most pow s m.id m.jobId m.en2 m.nt m.no m.vb m.nm m.share
+    have i := ih (submit pow s m.id m.jobId m.en2 m.nt m.no m.vb m.nm m.share).1
+    constructor <;> omega
+
 end PRV.Props.C02
